@@ -1,14 +1,18 @@
 package main
 
 // C05: GoLite targets (docs/GOLITE_NOTES.md): revocation of the signing chain.
+// Theorems: coq/props/C05_Generated.v (proofs in coq/theories/C05_GenProofs.v), table in docs/audit/C05.md section 6.
 func init() {
 	const v = ".../verifier"
+	const rev = "github.com/notaryproject/notation-core-go/revocation"
 	Register("C05", []Target{
 		{Pkg: "crypto/x509", Type: "Certificate", Opaque: true, Views: map[string]string{"Subject.String()": "string"}},
 		{Pkg: v, Func: "checkRevocationResults"},
 		{Pkg: v, Func: "revocationFinalResult"},
-		// the step itself: the two validator interfaces are fields of the verifier (function
-		// values), what notation-core-go reads from the envelope is an oracle
+		// the step itself: the two validator interfaces are (nilable) function fields of the verifier,
+		// what notation-core-go reads from the envelope is an oracle
+		{Pkg: rev, Type: "Validator", Nilable: true},
+		{Pkg: rev, Type: "Revocation", Nilable: true},
 		{Pkg: "github.com/notaryproject/notation-core-go/signature", Func: "(*SignerInfo).AuthenticSigningTime", Oracle: true},
 		{Pkg: v, Func: "(*verifier).verifyRevocation"},
 	})
